@@ -77,11 +77,11 @@ var All = []*Prop{
 	},
 	{
 		ID:    "C12",
-		Rules: []*core.Rule{rules.FloatAccum},
+		Rules: []*core.Rule{rules.FloatAccum, rules.FloatConv},
 		Explanation: "Very narrow: the numerical correctness of the conversions is not decided. R-FLOATACCUM decides three structural necessary conditions of 'the double nearest to the exact value denoted, for inputs of any length' and of shortest/correct digit generation: " +
 			"(1) no loop in the engine or the parser carries a float64 through the recurrence x' = x*k + d (digit accumulation rounds at every step beyond 2^53, so a long numeral is not correctly rounded) - two such loops existed on the pinned tree, both repaired; " +
 			"(2) the two conversion routines for numerals that do not fit an int64 (parseLargeInt for parseInt, the hexadecimal branch of the lexer's parseNumberLiteral) go through math/big or strconv; " +
-			"(3) ftoa.FToStr uses the fast (Grisu) digits only while fast.Dtoa reports success: the !ok edge calls the exact bignum generator.",
+			"(3) ftoa.FToStr uses the fast (Grisu) digits only while fast.Dtoa reports success: the !ok edge calls the exact bignum generator. R-FLOATCONV: every float64 -> integer conversion in the engine has an operand that a small interval analysis (constants, math.Mod with a constant modulus, Floor/Trunc/Abs, +-constant, phis, and the comparisons with constants that control the block) places strictly inside the int64 range, or is validated by the round-trip idiom (converted back and compared with the operand); Go leaves the conversion undefined outside the range, where ToInt32/ToUint32/... are defined modulo 2^n and ToIntegerOrInfinity clamps. The dtoa/Grisu internals are listed as not decided.",
 		Technique:  "recurrence detection on SSA phis (x*k+d carried by a float64 phi), who-calls check for the exact conversion routes, controlling-edge check of the Grisu fallback",
 		DesignRef:  "DESIGN.md section 4, C12",
 		NotCovered: "everything numerical: the digit generation algorithms themselves (ftoa bignum path, Grisu round-weed, prefix handling in the buffer), toFixed/toExponential/toPrecision rounding, toString(radix), decimal text to double (delegated to strconv.ParseFloat), radix-prefixed strings in Number(), BigInt to Number",
@@ -222,7 +222,7 @@ var All = []*Prop{
 	},
 	{
 		ID:    "C17",
-		Rules: []*core.Rule{rules.FreshDetach, rules.IdxBound, rules.UnsafeOwner},
+		Rules: []*core.Rule{rules.FreshDetach, rules.IdxBound, rules.UnsafeOwner, rules.FloatConv},
 		Explanation: "Memory-safety clause. Element access is unsafe.Add(SliceData(buf), idx) with no bounds check and the only run-time event that invalidates a once-valid index is detach (length/offset/elemSize/viewedArrayBuf are written only at construction: checked). " +
 			"R-FRESH-DETACH is a forward must-dataflow over SSA with inter-procedural summaries: every call of typedArray.{get,set,getRaw,setRaw,less,swap,export} and every slicing/indexing/copy of arrayBufferObject.data must be reached only by paths on which the buffer was checked not-detached (ensureNotDetached(true), the true edge of ensureNotDetached(false)/isValidIntegerIndex, !detached), or is a brand-new unescaped buffer, after the last call that may run script and return. 'May run script' is a greatest-fixed-point summary over the VTA call graph (calls that only run script on a path ending in panic do not count; typeErrorResult(true,..) is recognised as no-return). " +
 			"Side obligations checked on every run: the value passed to typedArray.set is already primitive (conversion before the element pointer is computed); typeMatch implementations are call-free; assertCallable/assertConstructor implementations never invoke; the sort-context needValidate protocol; field stability; defaultCtor is always r.global.<TypedArray>; buffer data is only replaced by detach() or on new buffers; ensureNotDetached returns true only on the !detached edge. " +
@@ -242,7 +242,7 @@ var All = []*Prop{
 		Explanation: "Clause decided: 'exporting a script-built object graph preserves sharing and cycles within one export' and, as its safety half, 'no export recursion aborts the host'. R-EXPORTCYCLE enumerates every implementation of objectImpl.export / exportToMap / exportToArrayOrSlice (and the generic helpers); each one that contains a recursion point into the object's own contents (exportValue, X.self.export, toReflectValue) must (a) for the untyped variant look its own object up with ctx.get and recurse only on the miss edge, (b) register its own object with ctx.put/putTyped on every path before each recursion point (dominance); typed variants must only be invoked on the miss edge of ctx.getTyped. Pure pass-through to another object's implementation is recognised as delegation. " +
 			"R-EXPORTCACHE: inside the cache itself an image once recorded is never forgotten - in put/putTyped a freshly made per-type table is stored into ctx.cache[key] only on the miss edge of the lookup or after the previous entry was copied into it. " +
 			"R-WRAPPERTXN ('host values wrapped by ToValue are live views'): overwriting a slot of a reflect-backed struct/array whose wrapper was handed out is detach -> convert -> (drop from cache | re-attach): on the err != nil edge of toReflectValue the detached wrapper is re-attached with setReflectValue, and the cache entry is removed only under err == nil. R-SPARECAP applies the spare-capacity discipline to valueArrayCache (shrink clears what it cuts off; grow re-slices into capacity). " +
-			"R-REFLECTSAFE: script-chosen indexes and field paths never reach the panicking forms of package reflect - no (reflect.Value).FieldByIndex, and every (reflect.Value).Index(i) is compared with a Len() first (locally, at every call site of a helper incl. bound-method thunks, or by constructing the destination with that length). R-HOSTSLICE: every in-place re-slice of a host-owned Go slice behind objectGoSlice / objectGoSliceReflect (grow within capacity, shrink) is preceded by a zeroing loop over the slots it uncovers or cuts off - the capacity of a host slice holds whatever the Go program left there.",
+			"R-REFLECTSAFE: script-chosen indexes and field paths never reach the panicking forms of package reflect - no (reflect.Value).FieldByIndex, and every (reflect.Value).Index(i) is compared with a Len() first (locally, at every call site of a helper incl. bound-method thunks, or by constructing the destination with that length). R-HOSTSLICE: every in-place re-slice of a host-owned Go slice behind objectGoSlice / objectGoSliceReflect (grow within capacity, shrink) is preceded by a zeroing loop over the slots it uncovers or cuts off - the capacity of a host slice holds whatever the Go program left there. R-FLOATCONV: every float64 -> integer conversion in the engine has an operand that a small interval analysis (constants, math.Mod with a constant modulus, Floor/Trunc/Abs, +-constant, phis, and the comparisons with constants that control the block) places strictly inside the int64 range, or is validated by the round-trip idiom (converted back and compared with the operand); Go leaves the conversion undefined outside the range, where ToInt32/ToUint32/... are defined modulo 2^n and ToIntegerOrInfinity clamps. The dtoa/Grisu internals are listed as not decided.",
 		Technique:  "get/put-before-recursion dominance over SSA for every implementation of the export interface methods; controlling-condition classification of map updates and of the two outcomes of a fallible conversion",
 		DesignRef:  "DESIGN.md section 4, C13",
 		NotCovered: "round-trip identity ToValue/Export, ExportTo deep equality, live-view aliasing of wrapped structs/maps/slices beyond the overwrite transaction: reflection-driven, value- and history-level",
@@ -287,11 +287,11 @@ var All = []*Prop{
 	},
 	{
 		ID:    "C05",
-		Rules: []*core.Rule{rules.NumBirth, rules.NumRange, rules.JSWhitespace, rules.KeyNorm},
+		Rules: []*core.Rule{rules.NumBirth, rules.NumRange, rules.JSWhitespace, rules.KeyNorm, rules.FloatConv},
 		Explanation: "Canonical numeric representation (no integral float in ±2^53 other than -0 is ever stored as valueFloat) is a necessary condition for SameValue/===/Map-key equality of equal numbers, because valueInt.SameAs/hash compare representations. " +
 			"R-NUMBIRTH enumerates every SSA birth of a valueFloat in the module (Convert/ChangeType from a non-valueFloat, arithmetic on valueFloat) and requires an enumerated idiom: a constant that is not an integer in ±2^53, math.NaN/Inf, the -0 package constant, or a birth on the ok==false edge of floatToInt applied to the same SSA value. " +
 			"R-NUMRANGE (sibling agreement): the comparisons with +-2^53 controlling the valueInt result of intToValue and the ok=true result of floatToInt admit the boundary value in both (a finite question about comparison operators, not about values). " +
-			"R-JSWHITESPACE: StringToNumber/trim use ECMAScript's white-space set: in package goja strings.TrimSpace/Fields are applied only to the content of an asciiString (below 0x80 Go's and ECMAScript's sets coincide); every other string is trimmed with parser.WhitespaceChars. R-KEYNORM (see C18): Map/Set normalise a -0 key to +0 in lookup and in set, so that the two zeros are one key.",
+			"R-JSWHITESPACE: StringToNumber/trim use ECMAScript's white-space set: in package goja strings.TrimSpace/Fields are applied only to the content of an asciiString (below 0x80 Go's and ECMAScript's sets coincide); every other string is trimmed with parser.WhitespaceChars. R-KEYNORM (see C18): Map/Set normalise a -0 key to +0 in lookup and in set, so that the two zeros are one key. R-FLOATCONV: every float64 -> integer conversion in the engine has an operand that a small interval analysis (constants, math.Mod with a constant modulus, Floor/Trunc/Abs, +-constant, phis, and the comparisons with constants that control the block) places strictly inside the int64 range, or is validated by the round-trip idiom (converted back and compared with the operand); Go leaves the conversion undefined outside the range, where ToInt32/ToUint32/... are defined modulo 2^n and ToIntegerOrInfinity clamps. The dtoa/Grisu internals are listed as not decided.",
 		Technique:  "who-may-construct rule over SSA births of valueFloat + dominance by the floatToInt !ok edge; comparison-operator agreement between sibling canonicalisers; who-may-call with argument typing",
 		DesignRef:  "DESIGN.md section 4, C05",
 		NotCovered: "that toInt32/ToNumber/string->number compute the right number; the Equals/hash tables themselves; valueInt range (R-INTBIRTH not armed)",
